@@ -102,7 +102,9 @@ def entry_fields(file, entry_pos, field_delim="\xFF"):
     blocksize = 65535
     file.seek(entry_pos[0])
     entry = file.read(blocksize)
-    entry = entry.lstrip(field_delim) # if there was some slight adjustment error (example: the last ecc block of the last file was the field_delim, then we will start with a field_delim, and thus we need to remove the trailing field_delim which is useless and will make the field detection buggy). This is not really a big problem for the previous file's ecc block: the missing ecc characters (which were mistaken for a field_delim), will just be missing (so we will lose a bit of resiliency for the last block of the previous file, but that's not a huge issue, the correction can still rely on the other characters).
+    entry_len = len(entry)
+    while entry.startswith(field_delim): entry = entry[len(field_delim):] # if there was some slight adjustment error (example: the last ecc block of the last file was the field_delim, then we will start with a field_delim, and thus we need to remove the trailing field_delim which is useless and will make the field detection buggy). This is not really a big problem for the previous file's ecc block: the missing ecc characters (which were mistaken for a field_delim), will just be missing (so we will lose a bit of resiliency for the last block of the previous file, but that's not a huge issue, the correction can still rely on the other characters). Note: we remove whole delimiters only (lstrip() would strip any leading character that is part of the delimiter, and thus eat the first characters of a filepath beginning with \xFA or \xFF).
+    stripped = entry_len - len(entry) # number of characters removed, to keep the absolute positions below correct
     # TODO: do in a while loop in case the filename is really big (bigger than blocksize) - or in case we add intra-ecc for filename
 
     # Find metadata fields delimiters positions
@@ -120,7 +122,7 @@ def entry_fields(file, entry_pos, field_delim="\xFF"):
     relfilepath_ecc = entry[second+len(field_delim):third]
     filesize_ecc = entry[third+len(field_delim):fourth]
     # Ecc stream field (aka ecc blocks)
-    ecc_field_pos = [entry_pos[0]+fourth+len(field_delim), entry_pos[1]] # return the starting and ending position of the rest of the ecc track, which contains blocks of hash/ecc of the original file's content.
+    ecc_field_pos = [entry_pos[0]+stripped+fourth+len(field_delim), entry_pos[1]] # return the starting and ending position of the rest of the ecc track, which contains blocks of hash/ecc of the original file's content.
 
     # Place the cursor at the beginning of the ecc_field
     file.seek(ecc_field_pos[0])
